@@ -14,9 +14,13 @@
     faults   := { 'e' | 'r' | 'w' | 'f' | 'd' } each letter: the injector MAY fail, once, during this phase:
                                               a read with EOF/closed (e), a read with a reset (r), a write
                                               with closed-pipe (w), a write with another error (f), a dial (d)
-    outcome  := phaseOut {';' phaseOut} '|d' <dials>
+    outcome  := phaseOut {';' phaseOut} '|d' (<dials> | '*')
     phaseOut := okP '.' errP '.' okX '.' errX   calls of each kind that returned a response / an error
-    dials    := number of dial attempts in the whole scenario
+    dials    := number of dial attempts in the whole scenario ('*': not observed — the harness reports it only
+                where the property speaks about dialing: closed clients, failed dials)
+  A scenario may start with the header `b<n>;`: the retry budget OBSERVED on the real code (re-transmissions
+  after the first); the run then uses `{ p with retries := n }`, so the outcome sets are those of a client
+  with the budget the code really has (and `lts.budget` separately compares it with `current.retries`).
   A phase ends when all its calls have returned and its `Close()` (if any) has returned. The server
   answers every request after an arbitrary delay.
 -/
@@ -134,12 +138,27 @@ def parsePhase (s : String) : Option Phase :=
 
 def parse (s : String) : Option Scen := (s.splitOn ";").mapM parsePhase
 
-def parseOutcome (s : String) : Option (List Nat) :=
+/-- `b<n>;<scenario>`: the observed retry budget and the scenario (`none` budget: no header). -/
+def parseWithBudget (s : String) : Option (Option Nat × Scen) :=
+  match s.splitOn ";" with
+  | hd :: rest =>
+    if hd.startsWith "b" ∧ !rest.isEmpty then
+      match (hd.drop 1).toString.toNat?, rest.mapM parsePhase with
+      | some b, some sc => some (some b, sc)
+      | _, _ => none
+    else (parse s).map fun sc => (none, sc)
+  | [] => none
+
+/-- the per-phase numbers and the dial count (`none` = `*`, any). -/
+def parseOutcome (s : String) : Option (List Nat × Option Nat) :=
   match s.splitOn "|d" with
   | [a, d] => do
-    let d ← d.toNat?
     let ps ← (a.splitOn ";").mapM fun ph => (ph.splitOn ".").mapM String.toNat?
-    if ps.all (·.length == 4) then some (ps.flatten ++ [d]) else none
+    if !ps.all (·.length == 4) then none
+    else if d == "*" then some (ps.flatten, none)
+    else do
+      let d ← d.toNat?
+      some (ps.flatten, some d)
   | _ => none
 
 def renderOutcome (o : List Nat) : String :=
